@@ -117,10 +117,13 @@ def classify_crash(text):
     if "WARNING: DATA RACE" in text:
         m = re.search(r"WARNING: DATA RACE.*?(?:\n\n\n|==================\n\Z|\Z)", text, re.S)
         ex = m.group(0) if m else text[-4000:]
-        # key: the two top library frames of the conflicting accesses
-        frames = re.findall(r"^\s+(github\.com/bluenviron/[^\s(]+)\(", ex, re.M)
-        frames = [f for f in frames if "verifsim" not in f]
-        key = "|".join(sorted(set(frames[:1] + [f for f in frames[1:] if f != frames[0]][:1]))) if frames else "unknown"
+        # key: the top library frame of each of the two conflicting accesses
+        tops = []
+        for blk in re.split(r"\n\s*\n", ex)[:2]:
+            fr = [f for f in re.findall(r"^\s+(github\.com/bluenviron/\S+?)\(\)", blk, re.M) if "verifsim" not in f]
+            if fr:
+                tops.append(fr[0].split("/")[-1])
+        key = "|".join(sorted(set(tops))) if tops else "unknown"
         return "race", key, ex[:6000]
     m = re.search(r"^(panic: .*|fatal error: .*)$", text, re.M)
     if m:
@@ -137,7 +140,7 @@ def classify_crash(text):
         # a panic raised inside library frames (the top non-runtime frame is a library frame)
         nonrt = [f for f in stack_funcs if not f.startswith(("runtime.", "panic(", "testing.", "internal/"))]
         if libf and nonrt and LIB_FRAME.search(nonrt[0]):
-            return "panic", libf[0].split("/")[-1], (head + "\n" + first)[:6000]
+            return "panic", libf[0].split("/")[-1].split("(")[0] if False else re.sub(r"\(0x[0-9a-f?, ]*\)$", "", libf[0].split("/")[-1]), (head + "\n" + first)[:6000]
         if "all goroutines are asleep" in head:
             return "unknown", "deadlock", tail[:4000]
         if harf and not libf:
